@@ -438,6 +438,19 @@ def do_sort(
     return sorted(value, key=key_func, reverse=reverse)
 
 
+@async_variant(do_sort)  # type: ignore
+async def async_do_sort(
+    environment: "Environment",
+    value: "t.AsyncIterable[V] | t.Iterable[V]",
+    reverse: bool = False,
+    case_sensitive: bool = False,
+    attribute: str | int | None = None,
+) -> "list[V]":
+    return do_sort(
+        environment, await auto_to_list(value), reverse, case_sensitive, attribute
+    )
+
+
 @pass_environment
 def sync_do_unique(
     environment: "Environment",
@@ -1862,7 +1875,7 @@ FILTERS = {
     "select": do_select,
     "selectattr": do_selectattr,
     "slice": do_slice,
-    "sort": do_sort,
+    "sort": async_do_sort,
     "string": soft_str,
     "striptags": do_striptags,
     "sum": do_sum,
